@@ -145,6 +145,9 @@ def gen_cases(tier, seed):
                     cases.append(dict(b2, fault="empty-losses"))
                     for i in range(ntasks):
                         cases.append(dict(b2, fault="nonscalar-loss", idx=i))
+                        # a ONE-element loss that is not 0-d (shapes (1,) and (1,1)): "non-scalar" is about the rank, not the size
+                        cases.append(dict(b2, fault="nonscalar-loss", idx=i, shape1=[1]))
+                        cases.append(dict(b2, fault="nonscalar-loss", idx=i, shape1=[1, 1]))
                     cases.append(dict(b2, fault="dup-feature"))
                 for d in (+1, -1):
                     for where in ("losses", "tparams"):
@@ -260,7 +263,10 @@ def _run_mtl(case):
             kw["tasks_params"] = []
     elif f == "nonscalar-loss":
         i = case["idx"]
-        kw["losses"][i] = torch.stack([kw["losses"][i], kw["losses"][i] * 2])
+        if case.get("shape1"):
+            kw["losses"][i] = kw["losses"][i].reshape(case["shape1"])
+        else:
+            kw["losses"][i] = torch.stack([kw["losses"][i], kw["losses"][i] * 2])
     elif f == "dup-feature":
         kw["features"] = kw["features"] + [kw["features"][0]]
     elif f == "count-mismatch":
